@@ -516,6 +516,7 @@ func (g *gen) Case() (Case, string) {
 	if g.chance(0.6) {
 		cs.Known = g.known()
 	}
+	cs.Cluster.Life = g.lifecycle(false, true)
 	return cs, label
 }
 
@@ -584,9 +585,76 @@ func (g *gen) UpdateCase(old ClusterW) (Case, string) {
 	if label == "update:" {
 		label = "update:nothing"
 	}
-	cs := Case{Cluster: nw, Prev: &old, Op: "update"}
+	label = strings.Replace(label, ":+", ":", 1)
+	// life-cycle states: the stored object may be terminating already; the write may change any of it (drop a
+	// finalizer, carry another resource version / generation / managed fields, ...) or nothing
+	old.Life = g.lifecycle(true, false)
+	nw.Life = old.Life
+	if g.chance(0.5) {
+		label += "+life"
+		nw.Life = g.lifecycle(true, true)
+		if old.Life != nil && old.Life.Terminating && nw.Life != nil {
+			nw.Life.Terminating = true // a deletion timestamp does not go away
+		}
+	}
+	op := "update"
+	switch k := g.r.Intn(10); {
+	case k < 2:
+		op = "status"
+	case k < 3:
+		op = "update-no-old"
+	}
+	if op != "update" {
+		label = op + ":" + strings.TrimPrefix(label, "update:")
+	}
+	cs := Case{Cluster: nw, Prev: &old, Op: op}
 	if g.chance(0.6) {
 		cs.Known = g.known()
 	}
 	return cs, label
+}
+
+// lifecycle: the life-cycle metadata of an object in some state the API server can present it in. stored = the
+// object is in storage already (uid, resource version, creation done); syntactically invalid members only appear on
+// the object under admission.
+func (g *gen) lifecycle(stored, allowInvalid bool) *LifeW {
+	if g.chance(0.35) {
+		return nil
+	}
+	l := &LifeW{ResourceVersion: hx("1")}
+	if !stored && g.chance(0.5) {
+		l.ResourceVersion = hx(g.pick("", "0", "1"))
+	} else {
+		l.ResourceVersion = hx(g.pick("1", "7", "999999", "0"))
+		l.UID = g.pick("", "0a1b", "uid-1")
+	}
+	l.Generation = []int64{0, 1, 7, 1 << 40}[g.r.Intn(4)]
+	if g.chance(0.3) {
+		l.Finalizers = []string{hx(g.pick("example.com/cleanup", "kubernetes", "foregroundDeletion"))}
+		if g.chance(0.3) {
+			l.Finalizers = append(l.Finalizers, hx("proxy.kubegateway.io/drain"))
+		}
+	}
+	if g.chance(0.3) {
+		// being deleted: the object stays as long as finalizers are pending, and is still written
+		l.Terminating = true
+		if len(l.Finalizers) == 0 && g.chance(0.7) {
+			l.Finalizers = []string{hx("example.com/cleanup")}
+		}
+	}
+	l.ManagedFields = []int{0, 0, 1, 2}[g.r.Intn(4)]
+	l.OwnerReferences = []int{0, 0, 1}[g.r.Intn(3)]
+	if allowInvalid && g.chance(0.15) {
+		switch g.r.Intn(4) {
+		case 0:
+			l.Generation = -1
+		case 1:
+			l.Finalizers = append(l.Finalizers, hx("bad finalizer"))
+		case 2:
+			l.ManagedFields = 3
+		case 3:
+			l.OwnerReferences = 2
+		}
+	}
+	return l
 }
